@@ -12,6 +12,7 @@ Driver for the survey step / crew day model.
         | site:crew:surveyed:today:travel:complete:inProgress:visited:last:travelCharged;...
         | id:rem:deployed:spent:home,...
   budget <considerDaylight> <workdayH> <daylightH>  -> <minutes>
+  crews <stationary> <followUp> <configured crew_count> <portfolio estimate>  -> <crews the method has>
 -/
 open LdarModel LdarModel.Crew LdarModel.Proto
 
@@ -88,6 +89,10 @@ def step (_ : Unit) (toks : List String) : Unit × String :=
       ((), s!"{s.cost} {s.visited} {s.travel} {s.survey} {s.wpTravel} | " ++ ";".intercalate (d.out.map showOut)
            ++ " | " ++ ",".intercalate (d.crews.map showCrew))
     | _, _, _, _, _, _, _, _, _ => ((), "bad-op")
+  | ["crews", st, fu, c, e] =>
+    match bool? st, bool? fu, nat? c, nat? e with
+    | some st, some fu, some c, some e => ((), toString (methodCrews st fu c e))
+    | _, _, _, _ => ((), "bad-op")
   | ["budget", c, w, d] =>
     match bool? c, int? w, int? d with
     | some c, some w, some d => ((), toString (dayBudget c w d))
